@@ -108,7 +108,10 @@ QSegOK(qo, qi) ==
 P_C01 == Quiescent => \A qi \in 1..QLen : (obs[qi].k = "disp") => QSegOK(obs, qi)
 
 \* ---------------------------------------------------------------- C02: order inside one transition
-QTakenPos(qo, qi) == LET qc == { qj \in (qi+1)..Len(qo) : qo[qj].k = "taken" /\ qo[qj].m = qo[qi].m /\ qo[qj].i = qo[qi].i
+\* (the "taken" marker of a take lies inside the same dispatch: before the dispend that closes the dispatch the take belongs to -
+\* a later dispatch may take the same row again)
+QTakenPos(qo, qi) == LET qde == QMatchEnd(qo, qi+1, 0)
+                         qc == { qj \in (qi+1)..(IF qde = 0 THEN Len(qo) ELSE qde) : qo[qj].k = "taken" /\ qo[qj].m = qo[qi].m /\ qo[qj].i = qo[qi].i
                                                    /\ qo[qj].p = qo[qi].p /\ qo[qj].x = qo[qi].x }
                      IN IF qc = {} THEN 0 ELSE CHOOSE qj \in qc : \A qk \in qc : qj <= qk
 QRowOfTake(qrec) == IF qrec.id = "table" THEN MD(qrec.m).table[qrec.p]
@@ -180,18 +183,22 @@ P_C03b == (pc = "CB2" /\ QLen > 0 /\ obs[QLen].k = "en" /\ obs[QLen].m # Def.roo
 
 \* ---------------------------------------------------------------- C04: run to completion, FIFO, exactly once
 \* no re-entrancy: while a machine runs a transition it does not start processing another occurrence
-QNoReentry(qo, qi) == LET qj == QTakenPos(qo, qi) IN
-     \A qx \in (qi+1)..(IF qj = 0 THEN Len(qo) ELSE qj) : ~(qo[qx].k = "pei" /\ qo[qx].m = qo[qi].m /\ qo[qx].i = qo[qi].i)
+\* (a transition aborted by an exception ends where exception_caught is invoked)
+QNoReentry(qo, qi) == LET qj == QTakenPos(qo, qi)
+                          qxc == { qx \in (qi+1)..Len(qo) : qo[qx].k = "xc" /\ qo[qx].i = qo[qi].i }
+                          qend == IF qj # 0 THEN qj ELSE IF qxc = {} THEN Len(qo) ELSE CHOOSE qx \in qxc : \A qy \in qxc : qx <= qy
+                      IN
+     \A qx \in (qi+1)..qend : ~(qo[qx].k = "pei" /\ qo[qx].m = qo[qi].m /\ qo[qx].i = qo[qi].i)
 QNoDup(qs) == \A qa, qb \in 1..Len(qs) : qa # qb => qs[qa] # qs[qb]
 QInSeq(qx, qs) == \E qa \in 1..Len(qs) : qs[qa] = qx
-P_C04 == /\ Quiescent => \A qi \in 1..QLen : (obs[qi].k = "take" /\ ~obs[qi].r) => QNoReentry(obs, qi)
-         /\ Quiescent => \A qi \in Insts : \A qm \in Machines :
+P_C04a == Quiescent => \A qi \in 1..QLen : (obs[qi].k = "take" /\ ~obs[qi].r) => QNoReentry(obs, qi)
+P_C04b == Quiescent => \A qi \in Insts : \A qm \in Machines :
               LET qD == SelectSeq(dispd[qi][qm], LAMBDA qp : QInSeq(qp, stored[qi][qm]) /\ qp \notin defd[qi])
                   qS == SelectSeq(stored[qi][qm], LAMBDA qp : qp \notin defd[qi] /\ qp \notin dropped[qi])
               IN /\ QNoDup(SelectSeq(dispd[qi][qm], LAMBDA qp : qp \notin defd[qi]))      \* exactly once
                  /\ IsPrefix(qD, qS)                                                       \* in submission order
          \* nothing is left behind: at quiescence whatever was stored and never deferred has been dispatched (or documented as dropped)
-         /\ Quiescent => \A qi \in Insts : \A qm \in ActiveTree(qi, Def.root) :
+P_C04c == Quiescent => \A qi \in Insts : \A qm \in ActiveTree(qi, Def.root) :
               (running[qi][Def.root] /\ lastcall.op = "pe" /\ lastcall.i = qi /\ pre.quiet /\ ~pre.blocked /\ ~(IsM /\ ret = 4)) =>
                   \A qk \in 1..Len(stored[qi][qm]) : LET qp == stored[qi][qm][qk] IN
                       qp \in defd[qi] \/ qp \in dropped[qi] \/ QInSeq(qp, dispd[qi][qm])
@@ -199,6 +206,7 @@ P_C04 == /\ Quiescent => \A qi \in 1..QLen : (obs[qi].k = "take" /\ ~obs[qi].r) 
                       \* backmp11: still pending because the active configuration defers its type
                       \/ (IsM /\ \E qq \in 1..Len(pool[qi][qm]) : pool[qi][qm][qq].occ.p = qp /\ ~pool[qi][qm][qq].marked
                                                                    /\ IsDeferredM(qi, qm, pool[qi][qm][qq].occ.t))
+P_C04 == P_C04a /\ P_C04b /\ P_C04c
 
 \* ---------------------------------------------------------------- C06: regions, result, no_transition
 \* the part of obs that belongs to the processing of the call's own occurrence by the root: first root pei .. its peiend
